@@ -102,6 +102,7 @@ use crate::traits::{Identity, IsIdentity};
 #[no_mangle] #[inline(never)] pub fn vp_ed_mul_by_cofactor(a: &EdwardsPoint) -> EdwardsPoint { a.mul_by_cofactor() }
 #[no_mangle] #[inline(never)] pub fn vp_ed_mul_by_pow_2(a: &EdwardsPoint, k: u32) -> EdwardsPoint { a.mul_by_pow_2(k) }
 #[no_mangle] #[inline(never)] pub fn vp_ed_is_small_order(a: &EdwardsPoint) -> bool { a.is_small_order() }
+#[no_mangle] #[inline(never)] pub fn vp_ed_is_torsion_free(a: &EdwardsPoint) -> bool { a.is_torsion_free() }
 #[no_mangle] #[inline(never)] pub fn vp_ed_to_montgomery(a: &EdwardsPoint) -> [u8; 32] { a.to_montgomery().to_bytes() }
 #[cfg(feature = "zeroize")]
 #[no_mangle] #[inline(never)] pub fn vp_ed_zeroize(a: &mut EdwardsPoint) { zeroize::Zeroize::zeroize(a) }
@@ -209,6 +210,11 @@ pub mod raw {
             "vp_ris_ct_eq" => out.push(vp_ris_ct_eq(&rd::<EP>(a[0]), &rd::<EP>(a[1]))),
             "vp_ris_elligator" => wr(&vp_ris_elligator(&rd::<FE>(a[0])), out),
             "vp_ris_from_uniform_bytes" => wr(&vp_ris_from_uniform_bytes(&rd::<B64>(a[0])), out),
+            #[cfg(feature = "group")]
+            "grp_is_torsion_free" | "grp_into_subgroup_is_some" | "ed_is_torsion_free" => {
+                let p = crate::edwards::CompressedEdwardsY(rd::<B32>(a[0])).decompress().expect("replay point decodes");
+                out.push(match name { "grp_is_torsion_free" => super::ffg::vp_grp_is_torsion_free(&p), "grp_into_subgroup_is_some" => super::ffg::vp_grp_into_subgroup_is_some(&p), _ => vp_ed_is_torsion_free(&p) as u8 })
+            }
             "g_mont_mul" => wr(&vp_g_mont_mul(&MontgomeryPoint(rd::<B32>(a[0])), &scalar_raw(rd::<B32>(a[1]))).0, out),
             "g_mont_mul_clamped" => wr(&vp_g_mont_mul_clamped(&MontgomeryPoint(rd::<B32>(a[0])), &rd::<B32>(a[1])).0, out),
             "g_opt_pippenger" | "g_opt_pippenger_dispatch" | "g_opt_multiscalar" => {
@@ -418,6 +424,8 @@ pub mod ffg {
     sc_const!(vp_ff_delta, <Scalar as PrimeField>::DELTA);
     sc_const!(vp_ff_zero, <Scalar as Field>::ZERO);
     sc_const!(vp_ff_one, <Scalar as Field>::ONE);
+    #[no_mangle] #[inline(never)] pub fn vp_grp_is_torsion_free(a: &EdwardsPoint) -> u8 { <EdwardsPoint as CofactorGroup>::is_torsion_free(a).unwrap_u8() }
+    #[no_mangle] #[inline(never)] pub fn vp_grp_into_subgroup_is_some(a: &EdwardsPoint) -> u8 { <EdwardsPoint as CofactorGroup>::into_subgroup(*a).is_some().unwrap_u8() }
     #[no_mangle] #[inline(never)] pub fn vp_ff_s() -> u32 { <Scalar as PrimeField>::S }
     #[no_mangle] #[inline(never)] pub fn vp_ff_num_bits() -> u32 { <Scalar as PrimeField>::NUM_BITS }
     #[no_mangle] #[inline(never)] pub fn vp_ff_capacity() -> u32 { <Scalar as PrimeField>::CAPACITY }
